@@ -160,6 +160,55 @@ Proof.
   destruct o; simpl in Hc; try congruence; simpl in *; apply create_rejected; auto.
 Qed.
 
+(** ** deleting a space: the space is gone and exactly the references it defined are gone with it
+    (with [live_spec_has_ref] on the state after the step: the specs left are those of values that
+    some other reference of the model still holds) *)
+Lemma owner_eqb_eq (a b : owner) : owner_eqb a b = true <-> a = b.
+Proof.
+  destruct a as [a1 a2], b as [b1 b2]; unfold owner_eqb; simpl. rewrite andb_true_iff, N.eqb_eq. split.
+  - intros [H1 H2]. subst. f_equal. destruct a2, b2; simpl in H2; try discriminate; auto.
+    apply N.eqb_eq in H2. congruence.
+  - intros H; inversion H; subst. split; auto. destruct b2; simpl; auto. apply N.eqb_refl.
+Qed.
+
+Lemma del_refs_refs : forall l st r,
+  In r (st_refs (fold_left rm_del_ref l st)) <-> In r (st_refs st) /\ ~ In (r_id r) (map r_id l).
+Proof.
+  induction l as [|a l IH]; intros st r; simpl.
+  - tauto.
+  - rewrite IH. simpl. rewrite in_drop_ref. split.
+    + intros [[H1 H2] H3]. split; auto. intros [E|E]; auto.
+    + intros [H1 H2]. split; [split|]; auto.
+Qed.
+
+Theorem delspace_forgets fuel ops m s :
+  let st := run fuel ops in
+  let st' := fst (step fuel st (DelSpace m s)) in
+  is_space st m s = true ->
+  snd (step fuel st (DelSpace m s)) = ROk ->
+  is_space st' m s = false /\
+  (forall r, In r (st_refs st') <-> In r (st_refs st) /\ r_own r <> (m, Some s)).
+Proof.
+  intros st st' Hsp. pose proof (run_inv fuel ops) as HI. fold st in HI.
+  unfold st'. cbn [step]. unfold del_model_attr. rewrite Hsp.
+  destruct (is_closed st m); [simpl; discriminate|].
+  unfold del_space.
+  destruct (descendants fuel st (st_bases st) m s) as [ds| |]; cbn [bind finish fst snd]; try discriminate.
+  destruct (map_res _ ds) as [ls| |]; cbn [bind finish fst snd]; try discriminate.
+  intros _. split.
+  - unfold is_space. simpl. apply not_true_is_false. intros H. apply existsb_exists in H.
+    destruct H as [k [Hk E]]. apply filter_In in Hk. destruct Hk as [_ Hk].
+    apply key_eqb_eq in E. subst k. rewrite key_eqb_refl in Hk. discriminate.
+  - intros r. simpl. rewrite del_refs_refs.
+    pose proof (rt_nodup _ _ _ (inv_rt _ _ HI)) as Hnd. split.
+    + intros [Hr Hni]. split; auto. intros E. apply Hni. apply in_map. apply filter_In. split; auto.
+      unfold in_space. apply owner_eqb_eq; auto.
+    + intros [Hr Hne]. split; auto. intros Hin. apply in_map_iff in Hin. destruct Hin as [r' [Hid Hr']].
+      apply filter_In in Hr'. destruct Hr' as [Hr' Hown].
+      assert (r' = r) by (eapply NoDup_map_inj; eauto). subst r'.
+      apply Hne. apply owner_eqb_eq; auto.
+Qed.
+
 (** ** C18_no_shared_location *)
 Theorem no_shared_location fuel ops s s' :
   In s (st_specs (run fuel ops)) -> In s' (st_specs (run fuel ops)) -> s <> s' ->
@@ -271,6 +320,34 @@ Definition demo2 : list op :=
     SetPath 0 1 0;                  (* refused: a.csv is taken *)
     SetPath 0 2 3;                  (* d/e.xlsx -> f.xlsx, both specs *)
     DelSpec 0 3 ].
+
+(** deleting a space: its references go, the spec of a value nothing else holds goes, the spec of a
+    value another reference holds stays, the derived references of the sub space go; a creation
+    onto a cells name and onto a deleted space are refused; the space can be created again *)
+Definition demo3 : list op :=
+  [ NewSpace 0 0; NewSpace 0 1; NewSpace 0 2; NewCells 0 0 21;
+    AddBase 0 1 0;                                             (* S1 derives S0 *)
+    NewPandas (0, Some 0) 10 0 FCsv None 1 VPandas;            (* S0.x = df1 -> a.csv *)
+    NewPandas (0, Some 0) 11 1 FCsv None 2 VPandas;            (* S0.y = df2 -> b.csv *)
+    Assign (0, Some 2) 12 2;                                   (* S2.z = df2 *)
+    NewPandas (0, Some 1) 21 2 FExcel None 3 VPandas;          (* refused: S1 derives the cells k *)
+    DelSpace 0 0;
+    NewPandas (0, Some 0) 10 0 FCsv None 1 VPandas;            (* refused: no such space *)
+    DelRef (0, None) 0;                                        (* refused: neither a space nor a reference *)
+    NewSpace 0 0;
+    NewPandas (0, Some 0) 21 0 FCsv None 1 VPandas ].          (* a.csv and the name k are free again *)
+
+Example demo3_state :
+  obs_refs 20 (run 20 (firstn 9 demo3))
+    = Ok [(0, Some 0, 10, 1, false); (0, Some 0, 11, 2, false);
+          (0, Some 1, 10, 1, true); (0, Some 1, 11, 2, true); (0, Some 2, 12, 2, false)]
+  /\ map view (st_specs (run 20 (firstn 10 demo3))) = [(0, 1, KCsv, None, 2)]
+  /\ obs_refs 20 (run 20 (firstn 10 demo3)) = Ok [(0, Some 2, 12, 2, false)]
+  /\ map (fun k => snd (step 20 (run 20 (firstn k demo3)) (nth k demo3 (Close 0)))) [8; 9; 10; 11; 12; 13]%nat
+     = [RErr; ROk; RErr; RErr; ROk; ROk]
+  /\ map view (st_specs (run 20 demo3)) = [(0, 1, KCsv, None, 2); (0, 0, KCsv, None, 1)]
+  /\ check_sanity (run 20 demo3) = true.
+Proof. vm_compute. repeat split. Qed.
 
 Example demo2_state :
   let st := run 20 demo2 in
